@@ -192,7 +192,7 @@ func checkC19(c *Ctx, r *Report) {
 		sawNotLeader := false
 		nl, _ := pkgConstInt(m, pkgProtocol, "NOT_LEADER_OR_FOLLOWER")
 		for _, e := range produceEntries(m, hp) {
-			if res := checkGuarded(m, hp, e.site.Call, gErr); !res.OK {
+			if res := checkGuarded(m, hp, e.site.At, gErr); !res.OK {
 				continue
 			}
 			nb++
@@ -273,7 +273,7 @@ func checkC19(c *Ctx, r *Report) {
 		okOwns := false
 		for _, site := range appendSites(aa, "[]int") {
 			g := Guard{cl(atomBool("!Owns(partition)", vmCall(lmPrefix+"Owns"), false))}
-			if res := checkGuarded(m, aa, site.Call, g); res.OK {
+			if res := checkGuarded(m, aa, site.At, g); res.OK {
 				// and nothing else: the append is reachable from the Owns==false edge directly
 				okOwns = true
 			}
